@@ -3,7 +3,7 @@ import numpy as np
 from hypothesis import strategies as st
 
 from vlib import env, gen  # noqa: F401
-from vlib.build import lib, positions
+from vlib.build import build_molecule, lib, positions
 from vlib.report import PropertyViolation
 from vlib.runner import Sub
 
@@ -27,6 +27,7 @@ ASSUMPTIONS = [
 def case_strategy(draw):
     case = draw(xc.ref_tgt_case(nres_max=3))
     case["prior_seed"] = draw(st.integers(0, 2 ** 31))
+    case["disturb"] = draw(st.sampled_from([None, None, None, "tgt", "ref", "both"]))
     return case
 
 
@@ -34,8 +35,14 @@ def check(case):
     ref, tgt = xc.build_pair(case)
     s = case["s"]
     M = xc.make_map(ref, tgt, s)
+    applied_to = ref
+    if case.get("disturb"):
+        # the construction objects are moved / rotated / re-assigned right after construction (p and a are the
+        # positions AT construction); the map is then applied to the construction-time reference configuration
+        xc.disturb_construction(ref, tgt, case.get("prior_seed", 0), case["disturb"])
+        applied_to = build_molecule(case["ref"])
     prior = xc.prior_call(M, case, case.get("prior_seed", 0))
-    out = lib("map-apply", M, ref)
+    out = lib("map-apply", M, applied_to)
     got = positions(out)
     rpos = np.array(case["ref"]["coords"], float)
     tpos = np.array(case["tgt"]["coords"], float)
@@ -64,6 +71,7 @@ def check(case):
     if ntie:
         classes.append("tie")
     classes.append("after-other-call" if prior else "first-call")
+    classes.append("construction-objects:" + (case.get("disturb") or "untouched"))
     nt = len(anchors) >= 2 and len(tpos) >= 2 and (s != 1.0 or case["geom"] != "generic")
     return {"nontrivial": nt, "classes": classes}
 
